@@ -12,6 +12,7 @@ import (
 	"fmt"
 	"io"
 	"net"
+	"net/http/httputil"
 	"os"
 	"strconv"
 	"strings"
@@ -37,6 +38,9 @@ type c20Case struct {
 		Limited bool `json:"limited"`
 		Rate    int  `json:"rate"`
 	} `json:"exp"`
+	// Big: the reply body reaches the listener in one write larger than the limiter's burst (--log-http body keeps
+	// the whole body in memory and hands it over at once)
+	Big bool `json:"big"`
 }
 
 const mib = 1 << 20
@@ -155,7 +159,7 @@ func c20Run(e *env) {
 }
 
 func c20Case1(seed int64, idx int, c *c20Case) (map[string]any, []map[string]any) {
-	res := map[string]any{"ok": true, "c": c.C, "exp": c.Exp}
+	res := map[string]any{"ok": true, "c": c.C, "exp": c.Exp, "big": c.Big}
 	var rmu sync.Mutex
 	var aborted atomic.Bool
 	fail := func(why string) {
@@ -169,7 +173,11 @@ func c20Case1(seed int64, idx int, c *c20Case) (map[string]any, []map[string]any
 	// seconds deep, which a transfer that ends soon never shows), then cut off
 	windowed := c.C.Conns > 3 && c.Exp.Limited
 	const window = 3 * time.Second
-	f, err := startFwd(fwdCfg{Name: "fwd", Localhost: "allow", ReadLimit: int64(c.C.Read) * mib, WriteLimit: int64(c.C.Write) * mib})
+	fc := fwdCfg{Name: "fwd", Localhost: "allow", ReadLimit: int64(c.C.Read) * mib, WriteLimit: int64(c.C.Write) * mib}
+	if c.Big {
+		fc.LogHTTP = "body"
+	}
+	f, err := startFwd(fc)
 	if err != nil {
 		fatal("start: %v", err)
 	}
@@ -227,6 +235,16 @@ func c20Case1(seed int64, idx int, c *c20Case) (map[string]any, []map[string]any
 							dmu.Unlock()
 						}
 						io.WriteString(tc, "HTTP/1.1 200 OK\r\nContent-Length: 2\r\nConnection: close\r\n\r\nok") // one exchange per upstream connection
+					} else if c.Big {
+						// no Content-Length: the body logger's in-memory copy is then written out in one piece
+						io.WriteString(tc, "HTTP/1.1 200 OK\r\nTransfer-Encoding: chunked\r\nConnection: close\r\n\r\n")
+						cw := httputil.NewChunkedWriter(tc)
+						d, _ := source(cw, seed, id, per)
+						cw.Close()
+						io.WriteString(tc, "\r\n")
+						dmu.Lock()
+						digSent[id] = d
+						dmu.Unlock()
 					} else {
 						fmt.Fprintf(tc, "HTTP/1.1 200 OK\r\nContent-Length: %d\r\nConnection: close\r\n\r\n", per)
 						d, _ := source(tc, seed, id, per)
@@ -331,7 +349,11 @@ func c20Case1(seed int64, idx int, c *c20Case) (map[string]any, []map[string]any
 				fail(fmt.Sprintf("download failed: %v", err))
 				return
 			}
-			d, err := sink(cl.br, per, smp)
+			var body io.Reader = cl.br
+			if strings.EqualFold(r.first("Transfer-Encoding"), "chunked") {
+				body = httputil.NewChunkedReader(cl.br)
+			}
+			d, err := sink(body, per, smp)
 			if err != nil {
 				fail("download: " + err.Error())
 				return
